@@ -16,6 +16,7 @@ RULE = ("seeded files (56 B - 30 kB), k/n/happy, segment size, helper fetch chun
         "equal to, the true ciphertext (AES-CTR under the cap's key); a present file (all N intact shares reachable) is reported without read_encrypted or "
         "allocate_buckets; fault-free uploads succeed, never hang, end with all N shares and read back; non-trivial = at least one success judged; distinct = probes+faults fingerprint")
 RULE += '; plus layouts where a share number is lost everywhere while another exists twice'
+RULE += '; plus literal-sized files (0-55 bytes) through a client that has a helper'
 TECHNIQUE = "deterministic simulation: seeded interruption of the helper ciphertext transfer and push at every chunk/message index with resume, differential against a direct upload and the true ciphertext"
 LEVEL_TEXT = "seeded search over files, parameters, chunk sizes, interruption points and resume histories; sampling, not enumeration"
 LEVEL_NOTE = "real: Helper, CHKUploadHelper, CHKCiphertextFetcher, LocalCiphertextReader, CHKCheckerAndUEBFetcher, AssistedUploader, RemoteEncryptedUploadable, CHKUploader, storage servers; stub: foolscap wire, reactor; helper process death is modelled as loss of all its connections plus truncation of the append-only incoming file to a prefix"
